@@ -96,6 +96,14 @@ class ExistingPath(type(Path())):
     def exists(self, **k):
         return True
 
+    def is_file(self):
+        return True
+
+    def stat(self, **k):
+        class St:
+            st_size = len(ByteFile.content) if fsmod.__dict__.get("PredefinedCrc") is not RecCrc else SymFileHandle.size
+        return St
+
 
 def bind_chunk_shims(sym):
     if sym:
